@@ -57,6 +57,21 @@ type Model struct {
 	Retained map[string]*MRet
 	AmbigRetained map[string]bool // topics whose latest retained value is not determined (overlapping retained publishes)
 	ConnSess map[int]string // conn idx -> session id (established connections)
+	// Late: connections on which a SUBSCRIBE / UNSUBSCRIBE was answered only after the quiescent point of its own
+	// window (the client sent it before its CONNACK, or the broker was blocked behind a stalled write). The model
+	// applies a request in the window it is issued in; for such a connection it does not know the subscription set
+	// at every instant, and nothing is demanded of or denied to its session from then on.
+	Late map[int]bool
+}
+
+// lateAck reports whether a packet of type typ with identifier pid was written to c after seq.
+func lateAck(c *Conn, typ byte, pid uint16, seq int) bool {
+	for _, pr := range c.Pkts {
+		if pr.Seq > seq && pr.P.Type == typ && pr.P.PacketID == pid {
+			return true
+		}
+	}
+	return false
 }
 
 // Window is one operation group: the ops issued without waiting in between, and the quiescent point that
@@ -102,7 +117,7 @@ func BuildWindows(r *Result) []Window {
 }
 
 func NewModel(r *Result) *Model {
-	return &Model{r: r, Cfg: &r.Plan.Cfg, Sess: map[string]*MSess{}, Retained: map[string]*MRet{}, AmbigRetained: map[string]bool{}, ConnSess: map[int]string{}}
+	return &Model{r: r, Cfg: &r.Plan.Cfg, Sess: map[string]*MSess{}, Retained: map[string]*MRet{}, AmbigRetained: map[string]bool{}, ConnSess: map[int]string{}, Late: map[int]bool{}}
 }
 
 // connack returns the CONNACK the broker wrote on a connection (nil if none).
@@ -272,6 +287,9 @@ func (m *Model) Apply(w *Window) {
 			if c == nil {
 				continue
 			}
+			if op.Pkt != nil && m.ackFor(c, w, refcodec.SUBACK, op.Pkt.PacketID) == nil && lateAck(c, refcodec.SUBACK, op.Pkt.PacketID, w.EndSeq) {
+				m.Late[c.Idx] = true
+			}
 			s := m.Sess[m.ConnSess[c.Idx]]
 			if s == nil || s.Conn != c {
 				continue
@@ -297,6 +315,9 @@ func (m *Model) Apply(w *Window) {
 			c := m.connOfOp(oi)
 			if c == nil {
 				continue
+			}
+			if op.Pkt != nil && m.ackFor(c, w, refcodec.UNSUBACK, op.Pkt.PacketID) == nil && lateAck(c, refcodec.UNSUBACK, op.Pkt.PacketID, w.EndSeq) {
+				m.Late[c.Idx] = true
 			}
 			s := m.Sess[m.ConnSess[c.Idx]]
 			if s == nil || s.Conn != c {
